@@ -186,6 +186,7 @@ type TraceEv struct {
 	CandSt []int64 // 11: their statuses as passed
 	QOrder []int64 // 11: pop order of the victims queue over these candidates
 	PAlloc []int64 // 11: what the preemptor's job holds (recorder ledger), EncRes
+	Roles  []int64 // 13: (role, occupied pods of that role) for every role minimum of the job's spec
 	Action int64   // index into Spec.Actions
 	obs    []CandObs
 }
@@ -281,11 +282,38 @@ func (p *recPlugin) OnSessionOpen(ssn *framework.Session) {
 		j := obj.(*api.JobInfo)
 		// Status / Node carry what the job's own counters say at this moment: occupied and minimum
 		w.Trace = append(w.Trace, TraceEv{Kind: 13, Task: jobNum(j.UID), Action: w.curAct,
-			Status: int64(j.WaitingTaskNum() + j.ReadyTaskNum() + j.PendingBestEffortTaskNum()), Node: int64(j.MinAvailable)})
+			Status: int64(j.WaitingTaskNum() + j.ReadyTaskNum() + j.PendingBestEffortTaskNum()), Node: int64(j.MinAvailable),
+			Roles: w.roleCounts(j)})
 		return 0 // abstain
 	})
 }
 func (p *recPlugin) OnSessionClose(ssn *framework.Session) {}
+
+// roleCounts: for every role minimum the job's SPEC declares (not what the JobInfo iterates over), the
+// number of the job's pods of that role that hold or are promised resources at this moment (allocated
+// statuses, succeeded, pipelined, pending best-effort), counted pod by pod from the job's task map
+func (w *World) roleCounts(j *api.JobInfo) []int64 {
+	var out []int64
+	for _, js := range w.Spec.Jobs {
+		if js.ID != jobNumber(j.UID) {
+			continue
+		}
+		for _, rm := range js.RoleMin {
+			n := int64(0)
+			for _, t := range j.Tasks {
+				if t.TaskRole != sched.RoleName(rm[0]) {
+					continue
+				}
+				if api.AllocatedStatus(t.Status) || t.Status == api.Succeeded || t.Status == api.Pipelined ||
+					(t.Status == api.Pending && t.InitResreq.IsEmpty()) {
+					n++
+				}
+			}
+			out = append(out, rm[0], n)
+		}
+	}
+	return out
+}
 
 func init() {
 	framework.RegisterPluginBuilder(recorderName, func(framework.Arguments) framework.Plugin { return &recPlugin{w: current} })
